@@ -379,6 +379,8 @@ type FnCtx struct {
 	named    map[string]*ssa.Alloc
 	lastVars map[string]Val
 	preVals  map[ssa.Value]Val
+	synthN   int
+	rangeN   int
 	lockSnap map[string]*State
 	pendingResults []Val
 }
